@@ -1663,7 +1663,9 @@ bool SimpleCondition::isTrue() {
   if (!m_message) {
     return false;
   }
-  if (m_message->getLastChangeTime() > m_lastCheckTime) {
+  // the change time has a resolution of one second only, so a further change within the second of the last
+  // check has to be evaluated as well
+  if (m_message->getLastChangeTime() > 0 && m_message->getLastChangeTime() >= m_lastCheckTime) {
     bool isTrue = !m_hasValues;  // for message seen check
     if (!isTrue) {
       isTrue = checkValue(m_message, m_field);
